@@ -122,7 +122,7 @@ func init() {
 			c.Rule("C19.bounds", "running bounds are accumulated monotonically")
 			pk := pkgsMatching(c, relIn("d2layouts/...", "d2graph", "lib/geo"))
 			runAxisClause(c, "C19.axis", pk, nil, 700)
-			runMirrorClause(c, "C19.mirror", pk, 20)
+			runMirrorClause(c, "C19.mirror", pk, 10)
 			runCeilClause(c, "C19.ceil-division", pk)
 			runDirectionClause(c, "C19.direction", pk)
 			{
@@ -155,6 +155,7 @@ func init() {
 			c.Rule("C21.constant-family", "a branch selected by one member of a constant family uses that member's constants")
 			pk := pkgsMatching(c, relIn("d2graph", "lib/shape"))
 			runAxisClause(c, "C21.axis", pk, nil, 250)
+			runMirrorClause(c, "C21.mirror", pk, 0)
 			constantFamilies(c, "C21.constant-family", pkgsMatching(c, relIn("lib/shape")))
 		},
 	})
@@ -172,7 +173,7 @@ func init() {
 			runAxisClause(c, "C22.axis", pk, nil, 50)
 			runBoundsClause(c, "C22.bounds", pk, 2)
 			noReorder(c, "C22.order", "d2layouts/d2grid", "gridDiagram", "objects", "ChildrenArray")
-			runMirrorClause(c, "C22.mirror", pk, 8)
+			runMirrorClause(c, "C22.mirror", pk, 4)
 			runCeilClause(c, "C22.ceil-division", pk)
 		},
 	})
@@ -540,6 +541,7 @@ func runC29(c *core.Check) {
 	pk := pkgsMatching(c, relIn("d2target", "d2renderers/d2svg"))
 	runBoundsClause(c, "C29.bounds", pk, 8)
 	runAxisClause(c, "C29.axis", pk, nil, 300)
+	runMirrorClause(c, "C29.mirror", pk, 0)
 	if nb := mustFunc(c, "d2target", "Diagram", "NestedBoundingBox"); nb != nil {
 		lists := map[string]int{}
 		ast.Inspect(nb.Decl.Body, func(n ast.Node) bool {
